@@ -46,4 +46,18 @@ def run (ops : List Op) : Client :=
       { status := (lastStatus (pre ++ [c])).getD 200, hdr := (pre ++ [c]).foldl hdrEffect [],
         body := concat (ops.map bodyOf), commits := 1 }
 
+/-- RFC 9110 §6.4.1 / §15: a 1xx, 204 or 304 response has no content. Written independently of
+    `Model.Resp.bodyAllowed`. -/
+def noContentStatus (c : Nat) : Bool := (100 ≤ c && c < 200) || c == 204 || c == 304
+
+/-- what an HTTP client receives over a connection: the commit-once reference, with the body
+    present exactly when the COMMITTED status can carry one — statuses chosen and replaced before
+    the commit play no role. -/
+def runConn (ops : List Op) : Client :=
+  let c := run ops
+  if noContentStatus c.status then { c with body := "" } else c
+
+/-- the view of a recorder (`e = false`) or of a connection (`e = true`). -/
+def runOn (e : Bool) (ops : List Op) : Client := if e then runConn ops else run ops
+
 end Spec.Resp
